@@ -507,8 +507,9 @@ class Recognizer(IRecognizer):
 
         if recognized_types is None:
             raise RecognitionError(
-                ('Could not recognize for type {},'
+                ('{}{}Could not recognize for type {},'
                  ' is it registered?').format(
+                     node.start_mark, os.linesep,
                      getattr(expected_type, '__name__', expected_type)))
         logger.debug('Recognized types {} matching {}'.format(
             recognized_types, expected_type))
